@@ -29,8 +29,8 @@
 (*             normalised its output would denote the same points).  Where  *)
 (*             a longitude is too large for micro-degree integers (|x| >    *)
 (*             1000 degrees: the absurd references) the comparison uses the *)
-(*             ruler's dlonm = |lon - lon_ref| mod 360 (exact f64           *)
-(*             subtraction and fmod), + 1 micro-degree.                     *)
+(*             ruler's dlonm = |lon mod 360 - lon_ref mod 360| mod 360      *)
+(*             (f64 fmod is exact), + 1 micro-degree.                       *)
 (*   A panic is never allowed.                                              *)
 EXTENDS CPR, TraceBase
 
